@@ -4,7 +4,7 @@ from ..contracts_api import ContractDB
 
 def build_db():
     db = ContractDB()
-    from . import render, html, attrs, children, helpers, tagify, hooks, document
+    from . import render, html, attrs, children, helpers, tagify, hooks, document, serial
     render.register(db)
     html.register(db)
     attrs.register(db)
@@ -13,6 +13,7 @@ def build_db():
     tagify.register(db)
     hooks.register(db)
     document.register(db)
+    serial.register(db)
     return db
 
 
@@ -61,6 +62,12 @@ def extra_lemmas(ctx):
             Lemma("L_nappend_assoc", [("a", "NodeList"), ("b", "NodeList"), ("c", "NodeList")], "nappend(nappend(a, b), c) == nappend(a, nappend(b, c))",
                   "by simp [nappend_assoc a b c]", imports=("HV.C14",), trigger="nappend(nappend(a, b), c)", why="list append is associative"),
             Lemma("L_nappend_nil", [("a", "NodeList")], "nappend(a, NNil()) == a", "by simp [nappend_nil a]", imports=("HV.C14",), trigger="nappend(a, NNil())", why="appending the empty list"),
+        ]
+    if os.path.exists(os.path.join(os.path.dirname(os.path.dirname(os.path.abspath(__file__))), "lean", "HV", "C13.lean")):
+        out += [
+            Lemma("L_depsOfTexts_snoc", [("l", "StrList"), ("x", "Str")], "depsOfTexts(ssnoc(l, x)) == rsnoc(depsOfTexts(l), depOfText(x))",
+                  "by simpa using depsOfTexts_ssnoc env l x", imports=("HV.C13",), trigger="depsOfTexts(ssnoc(l, x))",
+                  why="appending a newly seen serialisation appends its reconstructed dependency"),
         ]
     if not have_attrfacts:
         return out
